@@ -220,6 +220,7 @@ class Search:
                 nxt = []
                 hung = [r for r in results if r and r[0] == 'hang']
                 for _, tb, in_impl, hs in hung:
+                    self.transitions += 1      # the call that never returned
                     where = [ln.strip() for ln in tb.splitlines()
                              if ln.strip().startswith('File ')
                              and 'in on_alarm' not in ln][-3:]
